@@ -87,6 +87,11 @@ func genC03Program(r *R, ex map[string]bool) *Program {
 		KV{"tie", &Val{T: "map", M: []KV{{"basic", &Val{T: "int", I: 10}}, {"promo", str("10.00")}, {"std", &Val{T: "float", F: 10}}, {"plus", str("+10")}, {"low", str("2")}, {"lowf", &Val{T: "int", I: 2}}, {"lowx", str("2.0")}, {"mid", &Val{T: "float", F: 2.5}}}}},
 		KV{"ties", &Val{T: "smap", M: []KV{{"x", str("7")}, {"y", str("7.0")}, {"z", str("07")}, {"w", str("1e1")}, {"v", str("10")}}}},
 	)
+	num := func(x int) *Val { return &Val{T: "int", I: int64(x)} }
+	row := func(a, b, c int, d string) *Val {
+		return &Val{T: "map", M: []KV{{"b", num(b)}, {"a", num(a)}, {"d", str(d)}, {"c", num(c)}}}
+	}
+	ctx.M = append(ctx.M, KV{"rows", &Val{T: "list", L: []*Val{row(1, 9, 5, "x"), row(2, 3, 5, "w"), row(0, 7, 6, "z"), row(2, 1, 4, "y")}}})
 	maps := []string{"m1", "m2", "mi", "p1.Meta", "nm", "nm.b", "si", "mx", "cs", "cs2", "fm", "bm", "km", "gm", "gp.Meta", "em", "nk", "tie", "ties", "tie", "ties"}
 	hashLit := func() string {
 		n := r.Range(2, 4)
@@ -111,7 +116,7 @@ func genC03Program(r *R, ex map[string]bool) *Program {
 		return pick(r, maps)
 	}
 	seg := func() string {
-		switch r.N(21) {
+		switch r.N(23) {
 		case 0, 1:
 			return "{% for k, v in " + anyMap() + " %}{{ k }}={{ v|json_encode }}|{{ loop.index }};{% endfor %}"
 		case 2:
@@ -170,11 +175,31 @@ func genC03Program(r *R, ex map[string]bool) *Program {
 			return "{{ " + pick(r, []string{"max(" + m + ")", "min(" + m + ")", m + "|url_encode", m + " ~ ''", m + "|last", m + "|slice(0, 2)|json_encode", m + "|sort|join(',')", m + "|reverse|json_encode", m + "|merge(" + pick(r, maps) + ")|join(',')", m + "|keys|length", m + "|first|json_encode", "(" + m + "|length) ~ (" + m + "|keys|first)"}) + " }}"
 		case 17:
 			return "{% macro mm(name = 'q', id = name, label = id) %}[{{ name }}|{{ id }}|{{ label }}]{% endmacro %}{% set name = 'outer' %}{{ mm() }}{{ mm('u') }}{{ _self.mm('u', 'v') }}"
+		case 21:
+			// lists of hashes through order-sensitive filters: elements that differ in several keys with opposite
+			// orderings, so that a comparison which walks the hashes must walk them in a fixed order
+			l := pick(r, []string{"rows", "rows", "[{'x': 2, 'y': 1}, {'x': 1, 'y': 2}, {'y': 0, 'x': 3}]", "rows|reverse", "l2"})
+			return "{{ " + l + "|" + pick(r, []string{"sort|json_encode", "sort|first|json_encode", "sort|last|json_encode", "sort|reverse|json_encode", "sort|slice(0, 2)|json_encode", "first|json_encode"}) + " }}"
+		case 22:
+			// the same name bound twice in one construct: which binding wins must be decided by the source text
+			return pick(r, []string{
+				"{% from 'lib3' import ma as w, mb as w %}{{ w(1) }}",
+				"{% from 'lib3' import ma as w, mb as w, mc as w %}{{ w(2) }}",
+				"{% from 'lib3' import ma, mb as ma %}{{ ma(3) }}",
+				"{% from 'lib3' import mb as ma, ma %}{{ ma(4) }}",
+				"{% macro z() %}first{% endmacro %}{% macro z() %}second{% endmacro %}{{ z() }}{{ _self.z() }}",
+				"{% import 'lib3' as L %}{% import 'lib3b' as L %}{{ L.ma(5) }}",
+				"{% from 'lib3' import ma %}{% from 'lib3b' import ma %}{{ ma(6) }}",
+				"{% set q = 1 %}{% set q = 2 %}{{ q }}{% include 'part0' with {'a': 1, 'A': 2, 'a': 3} %}",
+			})
 		default:
 			return g.seg(1)
 		}
 	}
 	p := &Program{Ctx: ctx}
+	p.Templates = append(p.Templates,
+		Tmpl{Name: "lib3", Segs: []string{"{% macro ma(x) %}A({{ x }}){% endmacro %}{% macro mb(x) %}B({{ x }}){% endmacro %}{% macro mc(x) %}C({{ x }}){% endmacro %}"}},
+		Tmpl{Name: "lib3b", Segs: []string{"{% macro ma(x) %}A2({{ x }}){% endmacro %}{% macro mb(x) %}B2({{ x }}){% endmacro %}"}})
 	part := Tmpl{Name: "part0", Segs: []string{"[{{ a|default('-') }}{{ b|default('-') }}{{ c|default('-') }}{{ d|default('-') }}]"}}
 	p.Templates = append(p.Templates, part)
 	g.names = []string{"part0"}
